@@ -25,6 +25,8 @@ def gen_program(rng):
 
 
 def run(ctx):
+    # Tier B: Treiber.tla (push/pop with the hazard-pointer protocol, one label per atomic access, ghost abstract stack)
+    vlib.model_check(ctx, "stack/TreiberMC.tla", "stack/Treiber_q.cfg", workers=4)
     progs = list(PROGRAMS) + [gen_program(ctx.rng) for _ in range(1 if ctx.quick() else 6)]
     jobs = make_jobs(ctx, "stack", VARIANTS, progs)
     vlib.run_jobs(ctx, jobs)
